@@ -19,7 +19,8 @@ TRUSTED = ["Coq 8.16.1 kernel + vm_compute (PrimFloat only in the correspondence
            "numpy.fft.fft/rfft modelled as the DFT sum over a twiddle character (Theory/Dft.v), scipy.signal.correlate as the lag sums: specifications, not verified",
            "window samples are inputs of the model (Window(N,name).data of the snapshot); their own correctness is C20",
            "Python harness (snapshot, generators, float literal writer, cmath DFT oracle)"]
-UNPROVED = ["rounding error of the binary64 code (theorems are exact-arithmetic statements)",
+UNPROVED = ["every clause of the statement is proved about the model; not covered by any theorem: rounding error of the binary64 code",
+            "the overlapping layout NFFT < 2*lag+1 and the error branches of CORRELOGRAMPSD are modelled and tied by correspondence only",
             "WelchPeriodogram / DaniellPeriodogram / pcorrelogram class pipeline: out of scope of C01",
             "window values themselves (C20): a NaN window sample makes every bin NaN; reported by the search as a violation of the definition clause"]
 ASSUMPTIONS = ["exact arithmetic in the theorems", "N >= 1 and NFFT >= N (NFFT >= 2N-1 for Wiener-Khinchin), as in the property statement",
@@ -254,6 +255,8 @@ def eval_speriodogram(r):
         return bad
     N = len(x); w = win(N, name)
     P = np.asarray(speriodogram(x, NFFT=NFFT, detrend=False, scale_by_freq=False, window=name))
+    if NFFT is None:
+        NFFT = N          # the documented default: the data length
     nb = NFFT if cplx else NFFT // 2 + 1
     if P.shape != (nb,):
         bad.append(('length/speriodogram/1d/' + tag, 'length %r, expected %d (N=%d NFFT=%d)' % (P.shape, nb, N, NFFT)))
@@ -675,11 +678,12 @@ def search(ctx):
             for cplx in (False, True):
                 if ctx.tier == 'quick' and rng.integers(0, 3):
                     continue
-                kind = KINDS[int(rng.integers(0, 4))]; nfft = pick_nfft(rng, N, big, cats[int(rng.integers(0, 4))])
+                kind = KINDS[int(rng.integers(0, 4))]
+                nfft = pick_nfft(rng, N, big, cats[int(rng.integers(0, 4))]) if rng.integers(0, 8) else None
                 x = gen_data(rng, N, cplx, kind)
                 r = {'function': 'speriodogram', 'x': hexx(x), 'window': name, 'NFFT': nfft, 'complex': cplx}
                 ctx.count('search/speriodogram/%s/%s' % ('complex' if cplx else 'real', kind))
-                for cat in nfft_category(nfft):
+                for cat in (nfft_category(nfft) if nfft else ['default_None']):
                     ctx.count('search/NFFT_' + cat)
                 report(r, ('s1d', x.tobytes(), name, nfft), sample={'function': 'speriodogram (search)', 'N': N, 'NFFT': nfft, 'window': name, 'kind': kind})
     # every window with odd N (centre sample) and NFFT = N, real data
